@@ -273,6 +273,7 @@ ENUMS = [("src/isoform_assignment.py", "ReadAssignmentType"),
          ("src/long_read_counter.py", "CountingStrategy"),
          ("src/long_read_counter.py", "GroupedOutputFormat"),
          ("src/common.py", "CigarEvent"),
+         ("src/alignment_processor.py", "AlignmentType"),
          ("src/gene_info.py", "TranscriptModelType"),
          ("src/polya_verification.py", "PolyACorrectionStrategy") if False else None,
          ]
@@ -291,15 +292,17 @@ def gen_enums():
             out.append("  | %s" % lean_ident(m))
         out.append("  deriving DecidableEq, Repr, Inhabited\n")
         out.append("namespace %s" % cname)
-        out.append("def all : List %s := [%s]" % (cname, ", ".join("." + lean_ident(m) for m, _ in mem)))
+        out.append("def allMembers : List %s := [%s]" % (cname, ", ".join("." + lean_ident(m) for m, _ in mem)))
+        if not any(m == "all" for m, _ in mem):
+            out.append("def all : List %s := allMembers" % cname)
         out.append("def value : %s → Nat" % cname)
         for m, v in mem:
             out.append("  | .%s => %d" % (lean_ident(m), v))
         out.append("def name : %s → String" % cname)
         for m, _ in mem:
             out.append("  | .%s => \"%s\"" % (lean_ident(m), m))
-        out.append("def ofValue? (n : Nat) : Option %s := all.find? (fun x => x.value == n)" % cname)
-        out.append("def ofName? (s : String) : Option %s := all.find? (fun x => x.name == s)" % cname)
+        out.append("def ofValue? (n : Nat) : Option %s := allMembers.find? (fun x => x.value == n)" % cname)
+        out.append("def ofName? (s : String) : Option %s := allMembers.find? (fun x => x.name == s)" % cname)
         out.append("end %s\n" % cname)
     out.append("end IsoVerif.Gen\n")
     return "\n".join(out), {"enums": info}
